@@ -33,6 +33,7 @@ type node struct {
 type shape struct {
 	items []*node
 	spec  string
+	pdeco string // page-level deviation: key of pageDecos ("" = the page box has no border/padding)
 }
 
 // parseShape reads e.g. "3,2" (two paragraphs), "[2,2],3" (a wrapper with two paragraphs
@@ -92,6 +93,7 @@ func (s *shape) nodes() []*node {
 }
 
 func (s *shape) reset() {
+	s.pdeco = ""
 	for _, n := range s.nodes() {
 		*n = node{para: n.para, lines: n.lines, kids: n.kids, id: n.id}
 	}
@@ -104,7 +106,94 @@ type choice struct {
 	value string
 }
 
-func (c choice) String() string { return fmt.Sprintf("#%d.%s=%s", c.node, c.slot, c.value) }
+func (c choice) String() string {
+	if c.node < 0 {
+		return fmt.Sprintf("@page.%s=%s", c.slot, c.value)
+	}
+	return fmt.Sprintf("#%d.%s=%s", c.node, c.slot, c.value)
+}
+
+// ---- page-level deviations: border and padding of the PAGE box ------------------------------
+//
+// The sheet grows by the decoration so that the page content box stays pageW x H: the reference
+// pagination is unchanged, and the declared geometry is: margin box = sheet, content box = sheet
+// - margins - borders - paddings on each side. One symbol per operand of the sums in
+// newVerticalBox / newHorizontalBox (pages.go), every one alone (the other side 0), then mixed,
+// all different on the four sides, and the symmetric one (the only kind the test-suite has).
+
+type pageDeco struct {
+	bt, br, bb, bl float64 // border widths
+	pt, pr, pb, pl float64 // paddings
+}
+
+func (d pageDeco) vert() float64    { return d.bt + d.bb + d.pt + d.pb }
+func (d pageDeco) horiz() float64   { return d.bl + d.br + d.pl + d.pr }
+func (d pageDeco) hasBorder() bool  { return d.bt+d.br+d.bb+d.bl > 0 }
+func (d pageDeco) hasPadding() bool { return d.pt+d.pr+d.pb+d.pl > 0 }
+func (d pageDeco) asymmetric() bool {
+	return d.bt != d.bb || d.bl != d.br || d.pt != d.pb || d.pl != d.pr
+}
+
+// css renders the declarations side by side, the way a header/footer rule is written:
+// untouched sides keep border-style none.
+func (d pageDeco) css() string {
+	var sb strings.Builder
+	side := func(prop string, v float64, suffix string) {
+		if v != 0 {
+			fmt.Fprintf(&sb, "%s:%gpx%s;", prop, v, suffix)
+		}
+	}
+	side("border-top", d.bt, " solid")
+	side("border-right", d.br, " solid")
+	side("border-bottom", d.bb, " solid")
+	side("border-left", d.bl, " solid")
+	side("padding-top", d.pt, "")
+	side("padding-right", d.pr, "")
+	side("padding-bottom", d.pb, "")
+	side("padding-left", d.pl, "")
+	return sb.String()
+}
+
+var pageDecos = map[string]pageDeco{
+	"border-top":            {bt: 6},
+	"border-bottom":         {bb: 6},
+	"padding-top":           {pt: 4},
+	"padding-bottom":        {pb: 4},
+	"border-top+pad-bottom": {bt: 6, pb: 4},
+	"border-bottom+pad-top": {bb: 6, pt: 4},
+	"border-left+pad-right": {bl: 5, pr: 3},
+	"border-right+pad-left": {br: 5, pl: 3},
+	"all-different":         {bt: 1, br: 2, bb: 3, bl: 4, pt: 4, pr: 3, pb: 2, pl: 1},
+	"symmetric":             {bt: 3, br: 3, bb: 3, bl: 3, pt: 2, pr: 2, pb: 2, pl: 2},
+}
+
+// the menus, simplest first. Level 1 (every shape, presets): all; deeper levels: the two mixed
+// vertical ones (each holds a border and a padding, on opposite sides, and they mirror each other).
+var pageDecoAll = []string{"border-top", "border-bottom", "padding-top", "padding-bottom",
+	"border-top+pad-bottom", "border-bottom+pad-top", "border-left+pad-right", "border-right+pad-left",
+	"all-different", "symmetric"}
+var pageDecoDeep = []string{"border-top+pad-bottom", "border-bottom+pad-top"}
+var pageDecoDeepThorough = []string{"border-top", "border-bottom", "border-top+pad-bottom", "border-bottom+pad-top"}
+
+func pageChoices(level int, thorough bool) []choice {
+	names := pageDecoAll
+	switch {
+	case level == 2 && thorough:
+		names = pageDecoDeepThorough
+	case level >= 2:
+		names = pageDecoDeep
+	}
+	var out []choice
+	for _, n := range names {
+		out = append(out, choice{-1, "deco", n})
+	}
+	return out
+}
+
+// menuFor is the deviation menu of a shape at a level: the per-box menu, then the page-level one.
+func menuFor(s *shape, thorough bool, level int) []choice {
+	return append(choicesFor(s, thorough), pageChoices(level, thorough)...)
+}
 
 var breakValues = []string{"avoid", "page", "left", "right", "recto", "verso"}
 
@@ -129,6 +218,13 @@ func choicesFor(s *shape, thorough bool) []choice {
 }
 
 func (s *shape) apply(c choice) {
+	if c.node < 0 {
+		if _, ok := pageDecos[c.value]; !ok || c.slot != "deco" {
+			panic("c12: bad page-level choice " + c.String())
+		}
+		s.pdeco = c.value
+		return
+	}
 	n := s.nodes()[c.node]
 	switch c.slot {
 	case "before":
@@ -224,11 +320,18 @@ const pageWm = 30 // px: width of the pages named m
 // flowPrelude is the style sheet of family (ii): page content box pageW x h px below a 10px top
 // margin that holds the counter margin box.
 func flowPrelude(h int, atKeyword string, extra string) string {
+	return flowPreludeDeco(h, atKeyword, extra, pageDeco{})
+}
+
+// flowPreludeDeco: the same with a border/padding on the page box; the sheet grows by the
+// decoration (the content box stays pageW x h).
+func flowPreludeDeco(h int, atKeyword string, extra string, d pageDeco) string {
 	// pages named m are 10px wider (the one-word lines break the same way): the width of every
 	// page must be the one its name selects
-	return fmt.Sprintf(`<style>@page{size:%dpx %dpx;margin:10px 0 0 0;%s{content:counter(page) "/" counter(pages)}}@page m{size:%dpx %dpx}`+
+	sh := float64(h+10) + d.vert()
+	return fmt.Sprintf(`<style>@page{size:%gpx %gpx;margin:10px 0 0 0;%s%s{content:counter(page) "/" counter(pages)}}@page m{size:%gpx %gpx}`+
 		`html,body{margin:0;font-family:ahem;font-size:10px;line-height:1;orphans:1;widows:1}p,div{margin:0}%s</style>`,
-		pageW, h+10, atKeyword, pageWm, h+10, extra)
+		pageW+d.horiz(), sh, d.css(), atKeyword, pageWm+d.horiz(), sh, extra)
 }
 
 func sortedKeys(m map[string]bool) []string {
